@@ -16,11 +16,11 @@ def jobs_for(ctx):
             R=[32, 48, 64][k % 3], maxpaths=2 if k % 4 else 3, maxv=[5, 6, 7][k % 3])
     # the same family under big-magnitude embeddings (|coordinate| up to 2^61)
     for k in range(4 if q else 16):
-        add("plain" if k % 2 == 0 else "hi", fam="gps", n=8 if q else 30, emb="1,2,3,4", npts=160, cfg="notree", seed=s * 1000 + 500 + k, R=48)
+        add("plain" if k % 2 == 0 else "hi", fam="gps", n=8 if q else 30, emb="1,2,3,4,6,7", npts=160, cfg="notree", seed=s * 1000 + 500 + k, R=48)
     return J
 
 RULE = ("inputs: winding ladder (all 49 (ws,wc) pairs, 2 shapes) + random general-position polygons (TLC-certified GP, "
-        "coordinates < 64, self-intersecting allowed) under 5 affine embeddings up to 2^61; each input run with 4 clip types x 4 fill "
+        "coordinates < 64, self-intersecting allowed) under 7 affine embeddings (offsets up to 2^61, scales up to 2^54 so that coordinate differences exceed 2^31 and 2^59); each input run with 4 clip types x 4 fill "
         "rules x PreserveCollinear x ReverseSolution (+NoClip) on builds plain and CLIPPER2_HI_PRECISION; a case is non-trivial/distinct "
         "when the library returned a non-empty solution with distinct content for a distinct (input, embedding)")
 
